@@ -33,41 +33,6 @@ def getD (n : FNode) (h : Nat) : Option Data := (n.datCache.find? (·.1 = h)).ma
 inductive ExecResp | ok | fail
   deriving Repr, DecidableEq, Inhabited
 
-/-- one iteration of the loop body of `trySyncNextBlock`; `none` = nothing to do (header or data missing) -/
-def applyNext (n : FNode) (ex : ExecResp) : Option (FNode × List SW × Bool) :=
-  let h := n.store.height + 1
-  match getH n h, getD n h with
-  | some sh, some d =>
-    match execValidate n.lastState sh d with
-    | some _ => some ({ n with alive := false }, [], false)          -- "failed to validate block": the loop dies
-    | none =>
-      match ex with
-      | .fail => some ({ n with alive := false }, [], false)
-      | .ok =>
-        let root := execRoot n.lastState.appHash d.txs
-        let st' := nextState n.lastState sh.hdr root
-        -- the block is saved before the state that says it was applied
-        let w1 := SW.saveBlock sh.hdr.height { sh := sh, data := d, savedSig := sh.sig }
-        let s1 := n.store.apply w1
-        let w2 := SW.updateState st'
-        let s2 := s1.apply w2
-        let w3 := setHeightW s2 sh.hdr.height
-        let s3 := s2.applyAll w3
-        some ({ n with store := s3, lastState := st',
-                       hdrCache := n.hdrCache.filter (·.1 ≠ h), datCache := n.datCache.filter (·.1 ≠ h),
-                       seenD := if sh.hdr.dataHash = emptyDataHash then n.seenD else sh.hdr.dataHash :: n.seenD,
-                       seenH := sh.hdr.hash :: n.seenH },
-              [w1, w2] ++ w3, true)
-  | _, _ => none
-
-/-- `trySyncNextBlock`: apply as many consecutive cached blocks as possible -/
-def trySync : Nat → FNode → List SW → FNode × List SW
-  | 0, n, ws => (n, ws)
-  | fuel+1, n, ws =>
-    match applyNext n .ok with
-    | none => (n, ws)
-    | some (n', ws', cont) => if cont then trySync fuel n' (ws ++ ws') else (n', ws ++ ws')
-
 /-- `handleEmptyDataHash` -/
 def emptyDataFor (n : FNode) (h : Header) : Option Data :=
   if h.dataHash = emptyDataHash then
@@ -79,6 +44,67 @@ def emptyDataFor (n : FNode) (h : Header) : Option Data :=
       else []
     some { metadata := some { chainId := h.chainId, height := h.height, time := h.time, lastDataHash := ldh }, txs := [] }
   else none
+
+/-- the tail of one iteration of `trySyncNextBlock` once the block has been validated: execute it, then save
+block, state, chain height -/
+def applyBlock (n : FNode) (sh : SHeader) (d : Data) (ex : ExecResp) : FNode × List SW × Bool :=
+  let h := n.store.height + 1
+  match ex with
+  | .fail => ({ n with alive := false }, [], false)
+  | .ok =>
+    let root := execRoot n.lastState.appHash d.txs
+    let st' := nextState n.lastState sh.hdr root
+    -- the block is saved before the state that says it was applied
+    let w1 := SW.saveBlock sh.hdr.height { sh := sh, data := d, savedSig := sh.sig }
+    let s1 := n.store.apply w1
+    let w2 := SW.updateState st'
+    let s2 := s1.apply w2
+    let w3 := setHeightW s2 sh.hdr.height
+    let s3 := s2.applyAll w3
+    ({ n with store := s3, lastState := st',
+              hdrCache := n.hdrCache.filter (·.1 ≠ h), datCache := n.datCache.filter (·.1 ≠ h),
+              seenD := if sh.hdr.dataHash = emptyDataHash then n.seenD else sh.hdr.dataHash :: n.seenD,
+              seenH := sh.hdr.hash :: n.seenH },
+     [w1, w2] ++ w3, true)
+
+/-- the cached data of the next height does not belong to the (well-formed, signed) header `sh`: it is dropped and
+the node keeps waiting (`return nil`); for an empty block — which needs no data event — the local data is rebuilt
+(`handleEmptyDataHash` again) and the loop `continue`s: the next iteration reads the same header and the rebuilt data -/
+def dropMismatch (n : FNode) (sh : SHeader) (ex : ExecResp) : FNode × List SW × Bool :=
+  let h := n.store.height + 1
+  let n1 := { n with datCache := n.datCache.filter (·.1 ≠ h) }
+  match emptyDataFor n1 sh.hdr with
+  | none => (n1, [], false)
+  | some d' =>
+    let n2 := { n1 with datCache := (sh.hdr.height, d') :: n1.datCache }
+    match getD n2 h with
+    | none => (n2, [], false)
+    | some d2 =>
+      match execValidate n2.lastState sh d2 with
+      | none => applyBlock n2 sh d2 ex
+      | some _ => ({ n2 with alive := false }, [], false)
+
+/-- one iteration of the loop body of `trySyncNextBlock`; `none` = nothing to do (header or data missing) -/
+def applyNext (n : FNode) (ex : ExecResp) : Option (FNode × List SW × Bool) :=
+  let h := n.store.height + 1
+  match getH n h, getD n h with
+  | some sh, some d =>
+    match execValidate n.lastState sh d with
+    | none => some (applyBlock n sh d ex)
+    | some _ =>
+      -- Data received over P2P is not authenticated: when the header is well-formed and it is the cached DATA that
+      -- does not belong to it, the data is dropped (it used to terminate the loop)
+      if validateBasic sh = none ∧ validateData sh d ≠ none then some (dropMismatch n sh ex)
+      else some ({ n with alive := false }, [], false)                 -- "failed to validate block": the loop dies
+  | _, _ => none
+
+/-- `trySyncNextBlock`: apply as many consecutive cached blocks as possible -/
+def trySync : Nat → FNode → List SW → FNode × List SW
+  | 0, n, ws => (n, ws)
+  | fuel+1, n, ws =>
+    match applyNext n .ok with
+    | none => (n, ws)
+    | some (n', ws', cont) => if cont then trySync fuel n' (ws ++ ws') else (n', ws ++ ws')
 
 /-- `case headerEvent := <-m.headerInCh` -/
 def onHeader (n : FNode) (sh : SHeader) : FNode × List SW :=
@@ -140,5 +166,15 @@ def start (c : Cfg) (disk : Store) (caches : FNode := {}) : Option (FNode × Lis
       let d4 := d3.applyAll wd
       some ({ caches with store := d4, lastState := s, alive := true }, ws1 ++ ws2 ++ wh ++ wd)
     | _, _ => none
+
+/-- the first thing `SyncLoop` does: apply what the caches loaded at start-up already allow (after a crash the cache
+files of an earlier clean stop are older than the store) -/
+def loopStart (n : FNode) : FNode × List SW := trySync (n.hdrCache.length + 1) n []
+
+/-- `NewManager` followed by the start of `SyncLoop` -/
+def boot (c : Cfg) (disk : Store) (caches : FNode := {}) : Option (FNode × List SW) :=
+  match start c disk caches with
+  | none => none
+  | some (n, ws) => some ((loopStart n).1, ws ++ (loopStart n).2)
 
 end Sync
